@@ -20,7 +20,8 @@ theorem parseLoop_end (cc : CharClass) (P : Profile) (n : Nat) : parseLoop cc P 
   simp [next, nextWith]
 
 /-- the top-level loop on a printed pattern list with pending ordinary text -/
-theorem parseLoop_pats (cc : CharClass) (hcc : CCAscii cc) (P : Profile) (hus : P.underscoreNames = true) :
+theorem parseLoop_pats (cc : CharClass) (hcc : CCAscii cc) (P : Profile) (hus : P.underscoreNames = true)
+    (hP : P.doubledCloseParen = true) :
     ∀ (ps : List Pat) (pre : List Char) (n : Nat), wfPats P.wordBits false ps = true →
       pre.all nonSpecial = true → (pre ++ showPats ps).length < n →
       parseLoop cc P n (pre ++ showPats ps) = .ok (piecesOf pre ps)
@@ -58,12 +59,12 @@ theorem parseLoop_pats (cc : CharClass) (hcc : CCAscii cc) (P : Profile) (hus : 
       rw [hc] at hns
       have hshow : showPat (.lit l) = [c] := by rw [showPat_lit]; simp [showLit, he, hc]
       rw [hshow] at hlen ⊢
-      have ih := parseLoop_pats cc hcc P hus ps (pre ++ [c]) n hps (all_nonSpecial_snoc hpre hns)
+      have ih := parseLoop_pats cc hcc P hus hP ps (pre ++ [c]) n hps (all_nonSpecial_snoc hpre hns)
         (by simpa using hlen)
       simpa using ih
     | none =>
       obtain ⟨hd, tl, hshape, hsp, _⟩ := showPat_head P.wordBits false p (showPats ps) hp hpc
-      have hn := next_nonplain cc hcc P hus p false hp hpc (showPats ps)
+      have hn := next_nonplain cc hcc P hus hP p false hp hpc (showPats ps)
       have hlt : (showPats ps).length < (hd :: tl).length := by
         have hs := next_shrinks cc P (showPat p ++ showPats ps)
         rw [hn] at hs
@@ -77,7 +78,7 @@ theorem parseLoop_pats (cc : CharClass) (hcc : CCAscii cc) (P : Profile) (hus : 
         match n, hlen with
         | n + 1, hlen =>
           rw [parseLoop_cons cc P n _ _ _ hn]
-          have ih := parseLoop_pats cc hcc P hus ps [] n hps (by simp) (by simp at hlen hlt ⊢; omega)
+          have ih := parseLoop_pats cc hcc P hus hP ps [] n hps (by simp) (by simp at hlen hlt ⊢; omega)
           simp only [List.nil_append] at ih
           rw [ih]
       | cons c t =>
@@ -89,7 +90,7 @@ theorem parseLoop_pats (cc : CharClass) (hcc : CCAscii cc) (P : Profile) (hus : 
         | n + 2, hlen =>
           simp only [List.cons_append]
           rw [parseLoop_cons cc P (n + 1) _ _ _ hn0, parseLoop_cons cc P n _ _ _ hn]
-          have ih := parseLoop_pats cc hcc P hus ps [] n hps (by simp) (by simp; omega)
+          have ih := parseLoop_pats cc hcc P hus hP ps [] n hps (by simp) (by simp; omega)
           simp only [List.nil_append] at ih
           rw [ih]
           rfl
@@ -97,9 +98,9 @@ theorem parseLoop_pats (cc : CharClass) (hcc : CCAscii cc) (P : Profile) (hus : 
 
 /-- `Parser::new(showPats ps).collect()` is `piecesOf [] ps` -/
 theorem parse_show (cc : CharClass) (hcc : CCAscii cc) (P : Profile) (hus : P.underscoreNames = true)
-    (ps : List Pat) (h : WF P ps) :
+    (hP : P.doubledCloseParen = true) (ps : List Pat) (h : WF P ps) :
     parse cc P (showPats ps) = .ok (piecesOf [] ps) := by
-  have := parseLoop_pats cc hcc P hus ps [] ((showPats ps).length + 1) h (by simp) (by simp)
+  have := parseLoop_pats cc hcc P hus hP ps [] ((showPats ps).length + 1) h (by simp) (by simp)
   simpa [parse] using this
 
 end Log4rs.Pattern.Parse
